@@ -8,19 +8,15 @@
 (* produces a panic, a SystemError, any other exception class, an error without location, or  *)
 (* "no answer" (watchdog expiry).                                                             *)
 (*                                                                                            *)
-(* The only thing the specification knows about the *input* is what PyLex says about it       *)
-(* (parameter lex of the initial state):                                                      *)
-(*   "err"     PyLex finds a lexical error (unknown character, inconsistent dedent)           *)
-(*   "eof"     PyLex finds the end of file inside brackets / after a backslash                *)
-(*   "toks"    PyLex produces a token stream                                                  *)
-(*   "none"    PyLex makes no claim (text outside the part of the lexical grammar it models)  *)
-(* In the first two cases the Lex stage cannot pass.  Which of the later stages fails, and    *)
-(* whether one does, is not decided here: this module is an outcome monitor, not a compiler.  *)
+(* The specification does not decide which texts compile: which stage fails, and whether one *)
+(* does, is left open.  This module is an outcome monitor, not a compiler.  (What PyLex says   *)
+(* about an input is compared with the real lexer separately, at the parser.LexString level;   *)
+(* whether a text PyLex rejects is also rejected by compile is a question about the grammar   *)
+(* and belongs to C06.)                                                                       *)
 EXTENDS Integers, Sequences, FiniteSets, TLC
 
 Stages    == <<"Lex", "Parse", "Symtable", "Compile", "Assemble">>
 Modes     == {"exec", "eval", "single"}
-LexClass  == {"err", "eof", "toks", "none"}
 SynFamily == {"SyntaxError", "IndentationError", "TabError"}
 
 NoOutcome   == [kind |-> "none", cls |-> "", file |-> FALSE, line |-> FALSE, offset |-> FALSE]
@@ -33,42 +29,40 @@ MayRaise(stage) == IF stage \in {"Lex", "Parse"} THEN SynFamily ELSE {"SyntaxErr
 
 (* the machine as a successor function, so that the same definition serves the model-checked  *)
 (* behaviour spec below and the acceptance test for observed outcomes                         *)
-Start(lex, mode) == [lex |-> lex, mode |-> mode, at |-> 1, outcome |-> NoOutcome]
+Start(mode) == [mode |-> mode, at |-> 1, outcome |-> NoOutcome]
 Running(s) == s.outcome.kind = "none"
 Succ(s) ==
   IF ~Running(s) THEN {}
   ELSE LET stage == Stages[s.at]
-           pass  == IF stage = "Lex" /\ s.lex \in {"err", "eof"} THEN {}
-                    ELSE IF s.at = Len(Stages) THEN { [s EXCEPT !.outcome = CodeOutcome] }
+           pass  == IF s.at = Len(Stages) THEN { [s EXCEPT !.outcome = CodeOutcome] }
                     ELSE { [s EXCEPT !.at = @ + 1] }
            fail  == { [s EXCEPT !.outcome = SynOutcome(c)] : c \in MayRaise(stage) }
        IN pass \cup fail
 
 VARIABLE st
-Init == st \in { Start(l, m) : l \in LexClass, m \in Modes }
+Init == st \in { Start(m) : m \in Modes }
 Next == st' \in Succ(st)
 Spec == Init /\ [][Next]_st
 
 (* design checks (TLC, Pipeline.cfg) *)
-TypeOK == st.at \in 1..Len(Stages) /\ st.lex \in LexClass /\ st.mode \in Modes
+TypeOK == st.at \in 1..Len(Stages) /\ st.mode \in Modes
 Total == ~Running(st) => \/ st.outcome = CodeOutcome
                          \/ (st.outcome.kind = "exc" /\ st.outcome.cls \in SynFamily
                              /\ st.outcome.file /\ st.outcome.line /\ st.outcome.offset)
 NoStuck == Running(st) => Succ(st) # {}                      \* termination: every running state has a successor ...
 Progress == Running(st) => \A t \in Succ(st) : ~Running(t) \/ t.at > st.at   \* ... and stages only advance
-LexVerdict == (st.lex \in {"err", "eof"} /\ ~Running(st)) => st.outcome.kind = "exc"
 
 (* all states reachable from s (at most Len(Stages)+1 steps) *)
 RECURSIVE ReachFrom(_, _)
 ReachFrom(S, n) == IF n = 0 THEN S ELSE ReachFrom(S \cup UNION { Succ(s) : s \in S }, n - 1)
-Terminals(lex, mode) == { s.outcome : s \in { t \in ReachFrom({Start(lex, mode)}, Len(Stages) + 1) : ~Running(t) } }
+Terminals(mode) == { s.outcome : s \in { t \in ReachFrom({Start(mode)}, Len(Stages) + 1) : ~Running(t) } }
 
-(* An observed event [lex, mode, kind, cls, bases, file, line, offset] is accepted iff some    *)
+(* An observed event [mode, kind, cls, bases, file, line, offset] is accepted iff some         *)
 (* terminal outcome of the machine matches it; exception classes are compared up to           *)
 (* inheritance (bases = the observed class and all its base classes).                         *)
 Matches(o, e) ==
   /\ o.kind = e.kind
   /\ o.kind = "exc" => /\ \E i \in 1..Len(e.bases) : e.bases[i] = o.cls
                        /\ o.file = e.file /\ o.line = e.line /\ o.offset = e.offset
-Accepts(e) == e.lex \in LexClass /\ e.mode \in Modes /\ \E o \in Terminals(e.lex, e.mode) : Matches(o, e)
+Accepts(e) == e.mode \in Modes /\ \E o \in Terminals(e.mode) : Matches(o, e)
 =============================================================================
